@@ -100,6 +100,7 @@ type GuardDecl struct {
 	Type   string // struct type name
 	Mutex  string
 	Fields map[string]bool
+	Owners map[string]bool // functions running on the single goroutine that owns all writes: their reads need no lock
 	Recv   string  // receiver name used in Inv
 	Inv    *Clause // lock invariant: holds whenever the lock is not held by us
 	Pkg    *packages.Package
@@ -196,11 +197,39 @@ func (c *Ctx) parseContracts(p *packages.Package) error {
 						return fmt.Errorf("%s: bad guarded_by", where)
 					}
 					tm := strings.SplitN(strings.TrimSpace(parts[0]), ".", 2)
-					g := &GuardDecl{Type: tm[0], Mutex: tm[1], Fields: map[string]bool{}}
-					for _, f := range strings.Split(parts[1], ",") {
+					g := &GuardDecl{Type: tm[0], Mutex: tm[1], Fields: map[string]bool{}, Owners: map[string]bool{}}
+					flds := parts[1]
+					if i := strings.Index(flds, "; owner:"); i >= 0 {
+						for _, o := range strings.Split(flds[i+len("; owner:"):], ",") {
+							g.Owners[strings.TrimSpace(o)] = true
+						}
+						flds = flds[:i]
+					}
+					for _, f := range strings.Split(flds, ",") {
 						g.Fields[strings.TrimSpace(f)] = true
 					}
 					c.guards[p.PkgPath] = append(c.guards[p.PkgPath], g)
+				case "shared_types", "startup_funcs", "shared_globals":
+					sd := c.shared[p.PkgPath]
+					if sd == nil {
+						sd = &SharedDecl{Types: map[string]bool{}, Startup: map[string]bool{}}
+						c.shared[p.PkgPath] = sd
+					}
+					for _, n := range strings.Split(rest, ",") {
+						n = strings.TrimSpace(n)
+						if n == "" {
+							continue
+						}
+						switch kw {
+						case "shared_types":
+							sd.Types[n] = true
+						case "startup_funcs":
+							sd.Startup[n] = true
+						}
+					}
+					if kw == "shared_globals" {
+						sd.Globals = true
+					}
 				case "lock_inv":
 					// lock_inv Type.mutex(recv): expr
 					parts := strings.SplitN(rest, ":", 2)
